@@ -363,6 +363,9 @@ def emit_kernel(name, fname, qual, mode, params, vars=None, ret=None, stmts=None
         body = tr.tr(expr)
     else:
         func = find_func(fname, qual)
+        if stmts is None and func.decorator_list:
+            # memoisation / tracing decorators change what a call means (e.g. functools.cache on a function of mutable tensors): fail closed
+            raise GenError(f'{fname}:{qual}: translated function carries decorators {[ast.unparse(d) for d in func.decorator_list]}')
         body = None
         body_stmts = stmts if stmts is not None else func.body
         wraps = []   # early `if c: return e` prefixes, applied around the final term
